@@ -4,6 +4,7 @@ import (
 	"go/ast"
 	"go/types"
 	"regexp"
+	"strings"
 )
 
 func regexpMust(s string) *regexp.Regexp { return regexp.MustCompile(s) }
@@ -25,7 +26,8 @@ func normLocals(info *types.Info, e ast.Expr) string {
 		if !ok || v.IsField() || (v.Pkg() != nil && v.Parent() == v.Pkg().Scope()) {
 			return true
 		}
-		sub[v] = "$" + types.TypeString(v.Type(), func(p *types.Package) string { return p.Name() })
+		// a local that is a pointer and one that is the value render alike: `buf buffer` -> `buf *buffer` keeps the key
+		sub[v] = "$" + strings.TrimPrefix(types.TypeString(v.Type(), func(p *types.Package) string { return p.Name() }), "*")
 		return true
 	})
 	if len(sub) == 0 {
